@@ -18,6 +18,8 @@ directly from the URL's own query string (receiver's view), not with pysaml2."""
 import base64
 import json
 import os
+import shutil
+import tempfile
 import threading
 import traceback
 import urllib.parse
@@ -79,6 +81,9 @@ BAD_ALGS = [MD5, BOGUS]
 ENTITIES = {"sp": "sp", "sp2": "sp", "idp_sign": "idp", "member2": "idp", "idp2": "idp"}
 ACTORS = ["sp", "idp_sign", "member2", "sp2", "idp2"]
 BYSTANDERS = ["attacker", "idp_sign2"]
+RSA_NAMES = ACTORS + BYSTANDERS          # key pairs an entity can be set up with / a fixture can be signed with
+OTHER_KIND_CERTS = ["c15_ec256", "c15_ed25519"]  # certificates of "other entities" whose key is not RSA
+CERT_NAMES = RSA_NAMES + OTHER_KIND_CERTS
 
 _ents = {}
 _priv = {}
@@ -225,7 +230,7 @@ def fixture(op):
 def check_url(url, typ, n, alg, universe):
     """Receiver's view of a produced redirect URL -> (verifiers, intact)."""
     from cryptography.exceptions import InvalidSignature
-    from cryptography.hazmat.primitives.asymmetric import padding
+    from cryptography.hazmat.primitives.asymmetric import padding, rsa
 
     query = url.split("?", 1)[1] if "?" in url else ""
     raw = {}
@@ -250,9 +255,10 @@ def check_url(url, typ, n, alg, universe):
     for name in universe:
         if name not in cache:
             ok = False
-            if h is not None:
+            pk = pubkey(name)
+            if h is not None and isinstance(pk, rsa.RSAPublicKey):  # an EC / Ed25519 key verifies no RSA signature
                 try:
-                    pubkey(name).verify(signature, octets, padding.PKCS1v15(), h)
+                    pk.verify(signature, octets, padding.PKCS1v15(), h)
                     ok = True
                 except InvalidSignature:
                     ok = False
@@ -357,7 +363,21 @@ class _Ctx:
 REFUSALS = ("Signature algo not in allowed list", "Could not init signer")
 
 
-def _do_op(op, ent, universe):
+def _make_entity(key_file, cert_file, label):
+    """a fresh pysaml2 entity whose signing key is read from key_file NOW (security_context)"""
+    from saml2.client import Saml2Client
+    from saml2.config import SPConfig
+
+    c = SPConfig()
+    c.load({"entityid": "https://%s.c20.example/sp" % label, "key_file": key_file, "cert_file": cert_file,
+            "xmlsec_binary": S.xmlsec_standin.BINARY,
+            "service": {"sp": {"endpoints": {"assertion_consumer_service": [
+                ("https://%s.c20.example/acs" % label, S.BINDING_POST)]}}}})
+    return Saml2Client(config=c)
+
+
+def _do_op(op, ent, universe, env):
+    """-> (observable, entity the thread acts for afterwards)"""
     import saml2.sigver as sv
     from saml2 import pack
 
@@ -373,11 +393,11 @@ def _do_op(op, ent, universe):
                                          response=bool(op.get("response")), sign=True, sigalg=alg)
         except Exception as e:
             if str(e).startswith(REFUSALS):
-                return {"r": "refused"}
-            return {"r": "crash", "exc": type(e).__name__}
+                return {"r": "refused"}, ent
+            return {"r": "crash", "exc": type(e).__name__}, ent
         url = dict(info["headers"])["Location"]
         verifiers, intact = check_url(url, typ, n, alg, universe)
-        return {"r": "sig", "verifiers": verifiers, "intact": intact}
+        return {"r": "sig", "verifiers": verifiers, "intact": intact}, ent
     if op["op"] == "verify":
         saml_msg = fixture(op)
         cert = S.cert_b64(op["cert"]) if op.get("cert") else None
@@ -385,30 +405,46 @@ def _do_op(op, ent, universe):
         try:
             ok = sv.verify_redirect_signature(saml_msg, ent.sec.sec_backend, cert, sigkey)
         except Exception as e:
-            return {"r": "crash", "exc": type(e).__name__}
-        return {"r": "verified", "ok": bool(ok)}
+            return {"r": "crash", "exc": type(e).__name__}, ent
+        return {"r": "verified", "ok": bool(ok)}, ent
+    if op["op"] == "setup":
+        # key roll-over / first use done by the deployment: the files at this path now hold `content`'s pair
+        kf = os.path.join(env["dir"], "p%d.key" % op["path"])
+        cf = os.path.join(env["dir"], "p%d.pem" % op["path"])
+        shutil.copyfile(S.key_path(op["content"]), kf)
+        shutil.copyfile(S.cert_path(op["content"]), cf)
+        env["n"] = env.get("n", 0) + 1
+        try:
+            new = _make_entity(kf, cf, "e%d" % env["n"])
+        except Exception as e:
+            return {"r": "crash", "exc": type(e).__name__}, ent
+        return {"r": "setup"}, new
     raise ValueError("unknown op %r" % (op,))
 
 
-def _run_program(ctx, t, th, universe, events):
+def _run_program(ctx, t, th, universe, events, env):
     ent = entity(th["key"])
-    for op in th["prog"]:
+    for i, op in enumerate(th["prog"]):
         ctx.n = 0
-        ev = _do_op(op, ent, universe)
+        if op["op"] == "setup" and ctx.sched is not None:
+            ctx.n = 1
+            ctx.sched.arrive(t, "P")  # set-up touches no gate: it is carried out in an idle slot of its own
+        ev, ent = _do_op(op, ent, universe, env)
         if ctx.n == 0 and ctx.sched is not None:
             ctx.sched.arrive(t, "P")  # the operation ended without touching the signing state: one idle slot
         ev["t"] = t
+        ev["i"] = i
         events.append(ev)
 
 
-def _worker_main(sched, w, threads, universe, events, errors):
+def _worker_main(sched, w, threads, universe, events, errors, env):
     """one OS thread: carries out the logical threads assigned to it, one after the other"""
     for t in sched.members[w]:
         ctx = _Ctx(sched, t)
         _tls.ctx = ctx
         stop = False
         try:
-            _run_program(ctx, t, threads[t], universe, events)
+            _run_program(ctx, t, threads[t], universe, events, env)
         except _Abort:
             stop = True
         except BaseException:
@@ -466,7 +502,11 @@ def _tables_out():
 
 def _prepare(case):
     threads = case["threads"]
-    universe = [th["key"] for th in threads] + list(case.get("extra_keys") or [])
+    universe = []
+    for th in threads:  # Lean: Signer.certUniverse
+        universe.append(th["key"])
+        universe.extend(op["content"] for op in th["prog"] if op["op"] == "setup")
+    universe += list(case.get("extra_keys") or [])
     for th in threads:  # fixtures and entities are prepared outside the scheduled run
         entity(th["key"])
         for op in th["prog"]:
@@ -476,8 +516,16 @@ def _prepare(case):
 
 
 def _run_case(case):
-    if case.get("preempt") is not None:
-        return _run_preempt(case)
+    env = {"dir": tempfile.mkdtemp(prefix="c20-keys-")}
+    try:
+        if case.get("preempt") is not None:
+            return _run_preempt(case, env)
+        return _run_gated(case, env)
+    finally:
+        shutil.rmtree(env["dir"], ignore_errors=True)
+
+
+def _run_gated(case, env):
     threads, universe = _prepare(case)
     n = len(threads)
     workers = case.get("workers")
@@ -488,7 +536,7 @@ def _run_case(case):
     sched = _Sched(n, workers)
     events, errors = [], []
     wids = sorted(sched.members)
-    ths = {w: threading.Thread(target=_worker_main, args=(sched, w, threads, universe, events, errors),
+    ths = {w: threading.Thread(target=_worker_main, args=(sched, w, threads, universe, events, errors, env),
                                name="c20-worker-%d" % w, daemon=True) for w in wids}
     try:
         for w in wids:
@@ -526,26 +574,32 @@ def _watched_files():
     return tuple(os.path.join(d, f) for f in ("sigver.py", "pack.py", "entity.py"))
 
 
-def _run_preempt(case):
-    """Logical thread 0 runs its program under sys.settrace; immediately before the k-th line it executes inside
-    frames of saml2.sigver / saml2.pack / saml2.entity (k counted from 0 over its whole program) it is held, every
-    other logical thread runs its WHOLE program (own OS thread each, thread 1 first), then thread 0 goes on.
-    No call-boundary gates in this stream.  k beyond the last line: the others run after thread 0 has finished."""
+def _run_preempt(case, env):
+    """Logical thread 0 runs its program under sys.settrace.  `ks` = hold points (one or two, increasing): thread 0 is
+    held immediately before the k-th line it executes inside frames of saml2.sigver / saml2.pack / saml2.entity
+    (k counted from 0 over its whole program: sign, verify and set-up operations alike).  At the first hold point
+    logical thread 1 runs its WHOLE program (own OS thread), at the second one thread 2, ...; at the last hold
+    point all remaining threads run, one after the other; then thread 0 goes on.  No call-boundary gates in this
+    stream.  Hold points beyond the last line: the threads not yet run start after thread 0 has finished."""
     import sys
 
     threads, universe = _prepare(case)
-    k = case["preempt"]["k"]
+    pre = case["preempt"]
+    ks = list(pre["ks"]) if pre.get("ks") is not None else [pre["k"]]
     watched = _watched_files()
     events, errors = [], []
-    state = {"lines": 0, "held": False}
+    state = {"lines": 0, "holds": 0, "next": 1}
 
-    def others():
-        for t in range(1, len(threads)):
+    def run_others(upto):
+        while state["next"] < min(upto, len(threads)):
+            t = state["next"]
+            state["next"] += 1
+
             def body(t=t):
                 ctx = _Ctx(None, t)
                 _tls.ctx = ctx
                 try:
-                    _run_program(ctx, t, threads[t], universe, events)
+                    _run_program(ctx, t, threads[t], universe, events, env)
                 except BaseException:
                     errors.append(traceback.format_exc())
                 finally:
@@ -559,11 +613,12 @@ def _run_preempt(case):
 
     def local(frame, event, arg):
         if event == "line":
-            if state["lines"] == k and not state["held"]:
-                state["held"] = True
+            h = state["holds"]
+            if h < len(ks) and state["lines"] == ks[h]:
+                state["holds"] = h + 1
                 sys.settrace(None)
                 try:
-                    others()
+                    run_others(len(threads) if h + 1 == len(ks) else state["next"] + 1)
                 finally:
                     sys.settrace(tracer)
             state["lines"] += 1
@@ -579,7 +634,7 @@ def _run_preempt(case):
         _tls.ctx = ctx
         sys.settrace(tracer)
         try:
-            _run_program(ctx, 0, threads[0], universe, events)
+            _run_program(ctx, 0, threads[0], universe, events, env)
         except BaseException:
             errors.append(traceback.format_exc())
         finally:
@@ -591,15 +646,15 @@ def _run_preempt(case):
     th0.join(TIMEOUT * 4)
     if th0.is_alive():
         raise HarnessTimeout("held thread did not finish")
-    if not state["held"] and not errors:
+    if not errors:
         try:
-            others()
+            run_others(len(threads))
         except BaseException:
             errors.append(traceback.format_exc())
     if errors:
         raise RuntimeError("logical thread failed:\n" + errors[0])
     out = _tables_out()
-    out.update({"trace": [], "events": events, "lines": state["lines"], "held": state["held"]})
+    out.update({"trace": [], "events": events, "lines": state["lines"], "held": state["holds"] == len(ks)})
     return out
 
 
@@ -617,6 +672,8 @@ def slots(op, allowed, signers):
     """number of gate slots an operation takes (generator's estimate; surplus/missing slots are harmless)"""
     if op["op"] == "sign":
         return 2 if (op["alg"] in allowed and op["alg"] in signers) else 1
+    if op["op"] == "setup":
+        return 1
     return 2 if op["alg"] in signers else 1
 
 
@@ -680,6 +737,16 @@ class _Gen:
         return {"op": "verify", "alg": alg, "msg": m, "sig": {"key": signer, "alg": salg, "msg": smsg},
                 "cert": cert, "sigkey": sigkey}
 
+    def setup_op(self, path=None, content=None):
+        rng = self.rng
+        return {"op": "setup", "path": path if path is not None else rng.choice([1, 1, 2, 3]),
+                "content": content if content is not None else rng.choice(RSA_NAMES)}
+
+    def triple(self, alg, x, y):
+        """verify operation: genuine signature of key pair x over these octets, checked against certificate y"""
+        m = self.msg()
+        return {"op": "verify", "alg": alg, "msg": m, "sig": {"key": x, "alg": alg, "msg": m}, "cert": y, "sigkey": None}
+
     def keys(self, n, mode):
         rng = self.rng
         if mode == "distinct":
@@ -691,7 +758,8 @@ class _Gen:
         return ks
 
     def program(self, shape, alg_mode, own):
-        """shape: string over s (sign) / v (verify) / x (sign with a refused algorithm) / r (random)"""
+        """shape: string over s (sign) / v (verify) / x (sign with a refused algorithm) / u (entity set-up) /
+        r (random sign, verify or refused sign)"""
         rng = self.rng
         prog = []
         for ch in shape:
@@ -702,6 +770,8 @@ class _Gen:
                 prog.append(self.sign(alg if alg is not None else rng.choice(GOOD_ALGS)))
             elif ch == "x":
                 prog.append(self.sign(rng.choice(BAD_ALGS)))
+            elif ch == "u":
+                prog.append(self.setup_op())
             else:
                 prog.append(self.verify(alg, own))
         return prog
@@ -824,6 +894,15 @@ def gen_cases(rng, tier):
     # ---- one preemption at statement granularity inside the library
     yield from preempt_cases(rng, g, thorough)
 
+    # ---- entity set-up (key loading) inside the history
+    yield from setup_cases(rng, g, tables, thorough)
+
+    # ---- verdict matrix of the library's verifier, other certificate kinds
+    yield from matrix_cases(rng, g, tables, thorough)
+
+    # ---- verify as the preempted operation (single and double preemption, with a verification history)
+    yield from preempt_verify_cases(rng, g, thorough)
+
 
 def _pool_schedules(rng, base, tables, limit):
     """schedules a worker pool can produce: a worker serves its logical threads one after the other (increasing
@@ -876,6 +955,13 @@ def pool_cases(rng, g, tables, thorough):
             yield from _with_schedules(base, _pool_schedules(rng, base, tables, 120 if thorough else 8))
 
 
+def _calibrate(base):
+    probe = dict(base)
+    probe["schedule"] = []
+    probe["preempt"] = {"k": -1}
+    return run_impl(probe)["lines"]  # statements thread 0 executes inside the watched modules (current code)
+
+
 def preempt_cases(rng, g, thorough):
     """thread 0 held before its k-th library statement while the others run their whole programs: every k"""
     bases = [(["s", "s"], "distinct", "same"), (["s", "v"], "distinct", "same"), (["vs", "s"], "distinct", "same"),
@@ -887,13 +973,134 @@ def preempt_cases(rng, g, thorough):
     for shapes, key_mode, alg_mode in bases:
         base = g.case(shapes, key_mode, alg_mode)
         base["schedule"] = []
-        probe = dict(base)
-        probe["preempt"] = {"k": -1}
-        lines = run_impl(probe)["lines"]  # statements thread 0 executes inside the watched modules (current code)
+        lines = _calibrate(base)
         for k in list(range(lines)) + [lines, lines + 5]:
             c = dict(base)
             c["preempt"] = {"k": k}
             yield c
+
+
+def preempt_verify_cases(rng, g, thorough):
+    """VERIFY as the preempted operation, with a history: thread 0 verifies (X1 under Y1) then (X2 under Y2) and is
+    held before every statement; thread 1 meanwhile verifies (X3 under Y3) -- all 64 choices of the six names from
+    two entities, verifier backends Z0, Z1 drawn from {X, Y, third, same entity for both threads}.  Plus double
+    preemption: three threads, thread 1 runs at the first hold point, thread 2 at the second (sampled pairs)."""
+    import itertools
+
+    a, b, third = rng.sample(ACTORS, 3)
+    combos = list(itertools.product([a, b], repeat=6))
+    if not thorough:
+        combos = rng.sample(combos, 40)
+    for x1, y1, x2, y2, x3, y3 in combos:
+        g.ctr = rng.randrange(0, 400) * 10
+        alg = rng.choice(GOOD_ALGS)
+        z0 = rng.choice([a, b, third])
+        z1 = rng.choice([z0, a, b, third])
+        base = {"threads": [{"key": z0, "prog": [g.triple(alg, x1, y1), g.triple(alg, x2, y2)]},
+                            {"key": z1, "prog": [g.triple(alg, x3, y3)]}],
+                "extra_keys": [], "schedule": []}
+        lines = _calibrate(base)
+        for k in range(lines + 1):
+            c = dict(base)
+            c["preempt"] = {"k": k}
+            yield c
+    # other certificate kinds and sign/set-up mixed in, single preemption
+    for shapes in (["vv", "s"], ["sv", "v"], ["us", "v"], ["vs", "us"]):
+        base = g.case(shapes, "distinct", "same")
+        for j, th in enumerate(base["threads"]):  # distinct paths: no thread rewrites a file another one is loading
+            for op in th["prog"]:
+                if op["op"] == "setup":
+                    op["path"] = 10 + j
+                if op["op"] == "verify" and rng.random() < 0.5:
+                    op["cert"] = rng.choice(OTHER_KIND_CERTS)
+        base["extra_keys"] = list(OTHER_KIND_CERTS)
+        base["schedule"] = []
+        lines = _calibrate(base)
+        ks = range(lines + 1) if (thorough or lines <= 150) else sorted(rng.sample(range(lines + 1), 150))
+        for k in ks:
+            c = dict(base)
+            c["preempt"] = {"k": k}
+            yield c
+    # double preemption
+    for _ in range(6 if thorough else 3):
+        g.ctr = rng.randrange(0, 400) * 10
+        alg = rng.choice(GOOD_ALGS)
+        n = [rng.choice([a, b]) for _ in range(8)]
+        base = {"threads": [{"key": rng.choice([a, b, third]), "prog": [g.triple(alg, n[0], n[1]), g.triple(alg, n[2], n[3])]},
+                            {"key": rng.choice([a, b, third]), "prog": [g.triple(alg, n[4], n[5])]},
+                            {"key": rng.choice([a, b, third]), "prog": [g.triple(alg, n[6], n[7]) if rng.random() < 0.6
+                                                                        else g.sign(alg)]}],
+                "extra_keys": [], "schedule": []}
+        lines = _calibrate(base)
+        pairs = [(k1, k2) for k1 in range(lines) for k2 in range(k1 + 1, lines + 1)]
+        if len(pairs) > (600 if thorough else 120):
+            pairs = rng.sample(pairs, 600 if thorough else 120)
+        for k1, k2 in sorted(pairs):
+            c = dict(base)
+            c["preempt"] = {"ks": [k1, k2]}
+            yield c
+
+
+def setup_cases(rng, g, tables, thorough):
+    """entity set-up as part of the history: entities created during the run from key files -- the same path with
+    changed content (roll-over), the same content at different paths, random -- interleaved with signing and
+    verifying by entities that exist already; every interleaving at the gate points (set-up = one idle slot)"""
+    plans = [(["us", "us"], "rollover"), (["us", "us"], "samecontent"), (["us", "s"], "random"),
+             (["sus", "us"], "rollover"), (["usus", "s"], "rollover"), (["us", "su", "s"], "rollover"),
+             (["uv", "us"], "random"), (["us", "us", "us"], "samecontent")]
+    if thorough:
+        plans += [(["sus", "uss"], "rollover"), (["usv", "usv"], "random"), (["ur", "ru", "ur"], "random"),
+                  (["usus", "usus"], "rollover")]
+    for shapes, mode in plans:
+        base = g.case(shapes, rng.choice(["distinct", "same"]), "same")
+        setups = [op for th in base["threads"] for op in th["prog"] if op["op"] == "setup"]
+        contents = rng.sample(RSA_NAMES, min(len(setups), len(RSA_NAMES)))
+        same = rng.choice(RSA_NAMES)
+        for j, op in enumerate(setups):
+            if mode == "rollover":
+                op["path"], op["content"] = 1, contents[j % len(contents)]
+            elif mode == "samecontent":
+                op["path"], op["content"] = 1 + j, same
+        for th in base["threads"]:  # verify operations check genuine signatures of set-up keys as well
+            for op in th["prog"]:
+                if op["op"] == "verify" and setups and rng.random() < 0.7:
+                    x = rng.choice(setups)["content"]
+                    op["sig"] = {"key": x, "alg": op["alg"], "msg": op["msg"]}
+                    op["cert"] = rng.choice([x, rng.choice(setups)["content"], rng.choice(CERT_NAMES)])
+        base["extra_keys"] = rng.sample(CERT_NAMES, 2)
+        counts = _counts(base, tables)
+        limit = 400 if thorough else 60
+        if n_interleavings(counts) <= limit:
+            yield from _with_schedules(base, interleavings(counts))
+        else:
+            yield from _with_schedules(base, _sample_schedules(rng, counts, limit))
+        yield from _with_schedules(base, [[]])
+
+
+def matrix_cases(rng, g, tables, thorough):
+    """verdict matrix: genuine signature by X, certificate Y (RSA, EC P-256, Ed25519), verifier backend Z, for
+    Z in {X's backend, Y's backend, a third entity's}: the spec demands verdict = [X = Y]"""
+    a, b, c = rng.sample(ACTORS, 3)
+    certs = [a, b, c] + OTHER_KIND_CERTS
+    per_z = {z: [] for z in (a, b, c)}
+    g.ctr = rng.randrange(0, 400) * 10
+    for x in (a, b, c):
+        for y in certs:
+            for z in (a, b, c):
+                per_z[z].append(g.triple(rng.choice(GOOD_ALGS), x, y))
+    for z in per_z:
+        rng.shuffle(per_z[z])
+    base = {"threads": [{"key": z, "prog": per_z[z]} for z in (a, b, c)], "extra_keys": list(OTHER_KIND_CERTS)}
+    counts = _counts(base, tables)
+    yield from _with_schedules(base, [[]])
+    yield from _with_schedules(base, _sample_schedules(rng, counts, 30 if thorough else 6))
+    # pairs of concurrent checks, every interleaving
+    ops = [(z, op) for z in per_z for op in per_z[z]]
+    for _ in range(40 if thorough else 12):
+        (z1, o1), (z2, o2), (z3, o3), (z4, o4) = (rng.choice(ops) for _ in range(4))
+        base = {"threads": [{"key": z1, "prog": [o1, o3]}, {"key": z2, "prog": [o2, o4]}],
+                "extra_keys": list(OTHER_KIND_CERTS)}
+        yield from _with_schedules(base, interleavings(_counts(base, tables)))
 
 
 # ------------------------------------------------------------------ verdict helpers
